@@ -871,6 +871,9 @@ fn run_leak<E: Elem + Clone>(k: &LeakCase, ctx: &mut Ctx) -> Verdict {
 pub struct C12;
 impl Prop for C12 {
     type Case = LeakCase;
+    fn heavy(k: &LeakCase) -> bool {
+        k.cols as usize * k.rows as usize > 2500
+    }
     const ID: &'static str = "C12";
     const LEVEL: &'static str = "fault_enumeration";
     fn rule() -> &'static str {
